@@ -24,6 +24,23 @@ type pip10Info struct {
 // genPIP10Scenario: a 2.0.5 chain (PIP-10 averaging active, window 3..8 blocks)
 // with moving prices, regular conversions and — unless the registered finding
 // forbids it — ungraded heights inside the window.
+// truncateBeforePIP10 cuts a timeline chain right before its PIP-10 era (short averaging window
+// over ungraded heights: a restart there changes the averages, registered as C09/avg-window).
+func truncateBeforePIP10(sc *Scenario) {
+	if sc.Era.PIP10 == Never || sc.Era.PIP10 <= sc.Chain.Start+1 || sc.Chain.Tip < sc.Era.PIP10 {
+		return
+	}
+	sc.Chain.Tip = sc.Era.PIP10 - 1
+	var keep []*Block
+	for _, b := range sc.Chain.Blocks {
+		if b.Height <= sc.Chain.Tip {
+			keep = append(keep, b)
+		}
+	}
+	sc.Chain.Blocks = keep
+	sc.Chain.idx = nil
+}
+
 func genPIP10Scenario(t *rapid.T, st *Stats) (*Scenario, pip10Info) {
 	var info pip10Info
 	k := rapid.IntRange(5, 8).Draw(t, "k")
@@ -164,15 +181,7 @@ func TestC09(t *testing.T) {
 			sc = GenTimelineScenario(rt, DefaultCfg())
 			if Open("C09/avg-window") {
 				// the timeline ends in the PIP-10 era with a short window: stop before it
-				sc.Chain.Tip = sc.Era.PIP10 - 1
-				var keep []*Block
-				for _, b := range sc.Chain.Blocks {
-					if b.Height <= sc.Chain.Tip {
-						keep = append(keep, b)
-					}
-				}
-				sc.Chain.Blocks = keep
-				sc.Chain.idx = nil
+				truncateBeforePIP10(sc)
 			}
 		default:
 			sc, info = genPIP10Scenario(rt, st)
